@@ -455,3 +455,7 @@ def task_ref(pr, m, I, with_end):
     fp, ft = mach.free_ids(I)
     return "ref %d %s %d %s %s\n%s\n%s" % (len(fp), " ".join(map(str, fp)), len(ft), " ".join(map(str, ft)), "E" if with_end else "B",
                                            prog_text(pr), export.text_dfa(m))
+
+
+def task_amb(pr, with_end=False):
+    return "amb %s\n%s" % ("E" if with_end else "B", prog_text(pr))
